@@ -322,7 +322,34 @@ class Interp:
         r = self.oracle.read(self, bb, place, v)
         if r is not None:
             return r
+        if v == TOP and self.oracle._read is not None and place["p"] and place["p"][0] == "deref":
+            # `_3 = &(*_1).tag; ... (*_3)`: let the oracle see the place the reference was taken of
+            q = self._ref_source(place["l"])
+            if q is not None:
+                comb = {"l": q["l"], "p": list(q["p"]) + list(place["p"][1:])}
+                r = self.oracle.read(self, bb, comb, v)
+                if r is not None:
+                    return r
         return v
+
+    def _ref_source(self, local):
+        m = getattr(self, "_refdefs", None)
+        if m is None:
+            m = {}
+            cnt = {}
+            for blk in self.body.blocks:
+                for s in blk.stmts:
+                    if s["k"] == "assign" and not s["place"]["p"]:
+                        l = s["place"]["l"]
+                        cnt[l] = cnt.get(l, 0) + 1
+                        if s["rv"]["k"] == "ref":
+                            m[l] = s["rv"]["p"]
+                t = blk.term
+                if t["k"] == "call" and not t["dest"]["p"]:
+                    cnt[t["dest"]["l"]] = cnt.get(t["dest"]["l"], 0) + 1
+            self._refdefs = {l: p for l, p in m.items() if cnt.get(l) == 1}
+            m = self._refdefs
+        return m.get(local)
 
     def resolve_ref(self, st, place):
         """('ref', key, proj) naming `place` after resolving derefs of known refs, or TOP"""
